@@ -236,3 +236,23 @@ check(
     level_note="trusted: the read-only DSPLIB_VERIF observer (keys(), trace) reports the cache faithfully; the 20-line reference LRU",
     assumptions=["the model consumes the observed trace (it does not re-derive which sub-plans a length needs), so planner refactorings do not alarm while cache-policy changes do"],
 )
+
+check(
+    "C11",
+    runs=[dict(harness="C11_design", flavour="plain")],
+    rule=("fir1 for every order 2..256 (plus sampled orders to 2000), cut-offs {0.02,0.1,0.25,0.5,0.75,0.9,0.98} and random, all four types, "
+          "default window and custom windows (hann-like, rectangular, random): length rule, symmetry (4*eps*max|h|), |H(0)|=1 (low) / |H(pi)|=1 "
+          "(high) within 64*eps*sum|h|, wrong-length custom windows rejected, and for default designs whose bands are all wider than 16/(n+1) "
+          "the magnitude response on a long-double grid (1024 quick / 4096 thorough points) inside the masks (pass 1+-0.02, stop <= 0.02, "
+          "transition half-width 4/(n+1)); windows hann/hamming/blackman/blackmanharris/cosine/gauss/tukey/kaiser for every length 3..512 "
+          "(plus sampled to 1e5) and parameters gauss alpha in [0.5,6], tukey r in [-0.5,1.5], kaiser beta in [0,40]: closed form in long "
+          "double (1e-12), range [0,1], symmetry, periodic(n) == first n of symmetric(n+1). distinct = (function, parameters)."),
+    exhaustive_subspaces={"quick": ["all fir1 orders 2..256", "all window lengths 3..512"], "thorough": ["all fir1 orders 2..256", "all window lengths 3..512"]},
+    min_distinct={"quick": 20000, "thorough": 40000},
+    min_obs={"quick": {"mask_checks": 300, "wrong_window_length_cases": 1000}, "thorough": {"mask_checks": 3000, "wrong_window_length_cases": 1000}},
+    technique="runtime monitor: closed-form window references and a long-double frequency-response evaluator as oracle over the enumerated orders/lengths",
+    level_text=("Designs are executed for every order / length of the quantifier and compared with closed forms and response masks "
+                "evaluated in extended precision; held on the evaluations counted in the evidence."),
+    level_note="trusted: the closed-form definitions in the harness (MATLAB/scipy conventions) and the long-double I0 series",
+    assumptions=["the pass/stop masks are only applied to default (Hamming) designs, as the statement says; custom windows are checked for length, symmetry, unit gain and rejection of wrong lengths"],
+)
